@@ -12,6 +12,7 @@ CONSTANTS FirstUnits,   \* unit records allowed in first position
           Endings,      \* set of byte sequences appended after the last unit
           Caps,         \* set of response buffer capacities (-1 = growable)
           Cands,        \* candidate mnemonics used in headers (for the tree-validity check)
+          TwinAll,      \* TRUE: compare designation and first-match search from every branch (thorough)
           Emit
 
 VARIABLES units, es
@@ -44,7 +45,8 @@ Frozen == [][es.err # NoFail => (es'.calls = es.calls /\ es'.err = es.err /\ es'
 CurIsBranch == es.cur \in Branches
 (* C02: on SCPI-valid trees the declarative designation is unique and equals first-match search *)
 Twin == \A k \in 1..Len(units) : units[k].lex = "ok" =>
-           \A b \in Branches : /\ Cardinality(Desig(b, units[k].path)) <= 1
+           \A b \in (IF TwinAll THEN Branches ELSE {Root, es.cur}) :
+                               /\ Cardinality(Desig(b, units[k].path)) <= 1
                                /\ Resolve(b, units[k].path) = Desig(b, units[k].path)
 (* the tree under test is SCPI-valid for the candidate mnemonics in use (DESIGN 2.4-4) *)
 Valid == ValidTree(Cands)
